@@ -33,6 +33,9 @@ def circular_width(repo, rep, rule):
             if fi.qualname in EXEMPT_WIDTH:
                 rep.ok(rule, f"{fi.file}:{node.lineno} {fi.short}", unparse(node), "exempt: " + EXEMPT_WIDTH[fi.qualname], nontrivial=False)
                 continue
+            if _folded_circularly(fi, node):
+                rep.ok(rule, f"{fi.file}:{node.lineno} {fi.short}", unparse(_stmt(node))[:90], "difference folded onto the circle: min(|d|, 360 - |d|)")
+                continue
             rep.fail(rule, fi.file, node.lineno, fi.qualname, unparse(_stmt(node))[:120],
                      f"bin width taken as the plain difference {unparse(node)} of two stored directions: it is 330 instead of 30 "
                      "when the stored sequence starts 330, 0, 30 (seam between the first two), and negative for descending "
@@ -43,6 +46,25 @@ def circular_width(repo, rep, rule):
                     n += 1
                     rep.ok(rule, f"{fi.file}:{node.lineno} {fi.short}", unparse(node), "circular difference of two stored directions")
     return n
+
+
+def _folded_circularly(fi, node):
+    """Is the plain difference `node` the d of  min(|d|, 360 - |d|)  (utils.angle written out)?  The difference (possibly wrapped in abs / np.absolute) is
+    either bound to a name t with a later np.minimum(t, 360 - t), or appears directly twice inside such a call."""
+    e = node
+    p = getattr(e, "_parent", None)
+    while isinstance(p, ast.Call) and call_name(p).split(".")[-1] in ("abs", "absolute", "fabs", "float") and len(p.args) == 1:
+        e, p = p, getattr(p, "_parent", None)
+    texts = {unparse(e)}
+    if isinstance(p, ast.Assign) and len(p.targets) == 1 and isinstance(p.targets[0], ast.Name):
+        texts.add(p.targets[0].id)
+    for c in ast.walk(fi.node):
+        if isinstance(c, ast.Call) and call_name(c).split(".")[-1] in ("minimum", "min", "fmin") and len(c.args) == 2:
+            for a, b in ((c.args[0], c.args[1]), (c.args[1], c.args[0])):
+                if unparse(a) in texts and isinstance(b, ast.BinOp) and isinstance(b.op, ast.Sub) and unparse(b.right) in texts \
+                        and isinstance(b.left, ast.Constant) and b.left.value in (360, 360.0):
+                    return True
+    return False
 
 
 def _stmt(n):
